@@ -4967,3 +4967,364 @@ func ruleChannelClosedOnce(r *Run) {
 	}
 	r.check(n >= 10, "repo:channel-closes", fmt.Sprintf("%d closes, %d ordered pairs on one channel examined", n, multi), "too few: rule needs review", "-")
 }
+
+// ---------------------------------------------------------------------------------------------
+// Round f, sixth batch: seeds still missed after the full detection (C08, C13, C18)
+
+func init() {
+	register(ruleDef{ID: "R8.23", Prop: "C08", Tier: "quick", Floor: 2,
+		Title: "a supervoxel split changes the mapping only after its blocks were rewritten, and undoes the blocks when that fails: in SplitSupervoxel the call of addSupervoxelSplitToMapping lies behind the no-error edge of the test of the block phase's error, and the error edge of that test calls restoreOldBlocks",
+		Fn:    ruleSplitMappingAfterBlocks})
+	register(ruleDef{ID: "R13.28", Prop: "C13", Tier: "quick", Floor: 1,
+		Title: "a body's list loses what left the body before it gains what entered it: in annotation functions that apply per-label deletions and additions to one element list (ElementsNR.delete, ElementsNR.add on the same list), every add lies behind the delete loop — an element that moved within the body (same position deleted and added in one event) must end up present",
+		Fn:    ruleDeletionsBeforeAdditions})
+	register(ruleDef{ID: "R18.18", Prop: "C18", Tier: "quick", Floor: 2,
+		Title: "point and mask queries of an ROI answer from the spans alone: in roi.PointQuery and roi.GetMask no branch depends on the instance's MinZ/MaxZ (one pair for all versions, moved by whichever version wrote last)",
+		Fn:    ruleROIQueriesIgnoreExtents})
+}
+
+func ruleSplitMappingAfterBlocks(r *Run) {
+	w := r.W
+	f := w.method("datatype/labelmap", "Data", "SplitSupervoxel")
+	if f == nil {
+		r.undecided("labelmap.Data.SplitSupervoxel", "anchor not found")
+		return
+	}
+	var mapping ssa.Instruction
+	var restores []ssa.Instruction
+	for _, c := range calls(f) {
+		callee := staticCallee(c)
+		if callee == nil {
+			continue
+		}
+		if callee.Name() == "addSupervoxelSplitToMapping" {
+			mapping = c
+		}
+		if callee.Name() == "restoreOldBlocks" {
+			restores = append(restores, c)
+		}
+	}
+	if !r.check(mapping != nil, "SplitSupervoxel:mapping-step", "found", "the call of addSupervoxelSplitToMapping was not found: rule needs review", w.fpos(f)) {
+		return
+	}
+	// the test of the block phase: the If after the close of the block channel
+	var closeCh ssa.Instruction
+	for _, c := range calls(f) {
+		if bi, ok := c.Common().Value.(*ssa.Builtin); ok && bi.Name() == "close" {
+			if _, isDefer := c.(*ssa.Defer); !isDefer {
+				closeCh = c
+			}
+		}
+	}
+	okOrder, okUndo := false, false
+	if closeCh != nil {
+		if ifi, ok := closeCh.Block().Instrs[len(closeCh.Block().Instrs)-1].(*ssa.If); ok {
+			if bo, ok := ifi.Cond.(*ssa.BinOp); ok && isNilConst(bo.Y) {
+				errEdge, okEdge := 0, 1
+				if bo.Op == token.EQL {
+					errEdge, okEdge = 1, 0
+				}
+				okOrder = guardedByEdge(ifi, okEdge, mapping)
+				for _, rs := range restores {
+					if guardedByEdge(ifi, errEdge, rs) {
+						okUndo = true
+					}
+				}
+			}
+		}
+	}
+	r.check(okOrder, "SplitSupervoxel:mapping-after-the-block-phase-succeeded", "behind the no-error edge of the block phase's test",
+		"the mapping (and the mutation log) are changed before the blocks were rewritten without error: when a block fails, the request answers an error and the blocks are restored, but the supervoxel is already mapped away and the split is in the log — replayed at every restart", w.pos(mapping.Pos()))
+	r.check(okUndo, "SplitSupervoxel:failed-block-phase-restores-blocks", "the error edge of the block phase's test calls restoreOldBlocks",
+		"when a block of the split fails, the blocks already rewritten are not restored: part of the supervoxel carries the new ids while index and mapping still describe the old one", w.fpos(f))
+}
+
+func ruleDeletionsBeforeAdditions(r *Run) {
+	w := r.W
+	n := 0
+	for _, f := range w.RepoFuncs {
+		if relPkg(pkgPathOf(f)) != "datatype/annotation" || len(f.Blocks) == 0 || isTestFunc(w, f) {
+			continue
+		}
+		var dels, adds []ssa.CallInstruction
+		for _, c := range calls(f) {
+			callee := staticCallee(c)
+			if callee == nil || callee.Signature.Recv() == nil || !strings.Contains(callee.Signature.Recv().Type().String(), "ElementsNR") {
+				continue
+			}
+			switch callee.Name() {
+			case "delete":
+				dels = append(dels, c)
+			case "add":
+				adds = append(adds, c)
+			}
+		}
+		k := 0
+		for _, a := range adds {
+			for _, d := range dels {
+				if placeKey(a.Common().Args[0]) != placeKey(d.Common().Args[0]) {
+					continue
+				}
+				// both in one pass over the labels: the same enclosing loop
+				ha, _, _ := innermostLoop(f, a.Block())
+				_, setD, _ := innermostLoop(f, d.Block())
+				if ha == nil || setD == nil {
+					continue
+				}
+				n++
+				k++
+				// the add must not be able to reach the delete within one pass (i.e. without going through the outer header)
+				_, outer, _ := innermostLoop(f, a.Block())
+				var head ssa.Instruction
+				for _, x := range ha.Instrs {
+					if _, isPhi := x.(*ssa.Phi); !isPhi {
+						head = x
+						break
+					}
+				}
+				_ = outer
+				p := findPath(f, a, func(x ssa.Instruction) bool { return x == head }, func(x ssa.Instruction) bool { return x == ssa.Instruction(d) }, nil)
+				r.check(p == nil, fmt.Sprintf("%s:list#%d:deletions-before-additions", fname(f), k), "no path inside one pass leads from the addition to the deletions",
+					"the additions are applied to a body's element list before the deletions of the same event: an element whose position is both deleted and added (it stayed in the body while the block was relabelled) is added and then removed — the body's list loses it while blocks and tags still have it", w.pos(a.Pos()))
+			}
+		}
+	}
+	r.check(n >= 1, "annotation:lists-with-deletions-and-additions", fmt.Sprintf("%d", n), "none found: rule needs review", "-")
+}
+
+func ruleROIQueriesIgnoreExtents(r *Run) {
+	w := r.W
+	n := 0
+	for _, name := range []string{"PointQuery", "GetMask"} {
+		f := w.method("datatype/roi", "Data", name)
+		if f == nil {
+			r.undecided("roi.Data."+name, "anchor not found")
+			continue
+		}
+		n++
+		bad := ""
+		for _, b := range f.Blocks {
+			ifi, ok := b.Instrs[len(b.Instrs)-1].(*ssa.If)
+			if !ok {
+				continue
+			}
+			for d := range dataDeps(ifi.Cond) {
+				u, ok := d.(*ssa.UnOp)
+				if !ok {
+					continue
+				}
+				fa, ok := u.X.(*ssa.FieldAddr)
+				if !ok {
+					continue
+				}
+				if nm, _, _ := fieldName(fa); nm == "MinZ" || nm == "MaxZ" {
+					bad = w.pos(ifi.Pos())
+				}
+			}
+		}
+		r.check(bad == "", "roi."+name+":no-branch-on-MinZ-MaxZ", "no branch depends on the instance's extents",
+			"a branch of the query depends on the instance's MinZ/MaxZ ("+bad+"): these are not versioned — after another branch shrank or moved its ROI, points inside this version's ROI are answered as outside", w.fpos(f))
+	}
+	r.check(n >= 2, "roi:query-functions", fmt.Sprintf("%d", n), "fewer than expected: rule needs review", "-")
+}
+
+// ---------------------------------------------------------------------------------------------
+// R9.15 — the row stride of a sub-block number is the X count; R8.24 — only the emptied supervoxel leaves a block entry
+
+func init() {
+	register(ruleDef{ID: "R9.15", Prop: "C09", Tier: "quick", Floor: 3,
+		Title: "sub-blocks are numbered x-fastest: in the labels package, in every sum of the shape a·g·g' + b·g'' + c whose g, g' are the sub-block counts of two axes, g and g' are the counts of the X and Y axes and g'' is the count of the X axis (the layout every reader and the encoder share)",
+		Fn:    ruleSubBlockNumberStrides})
+	register(ruleDef{ID: "R8.24", Prop: "C08", Tier: "quick", Floor: 1,
+		Title: "a supervoxel that leaves a block takes only its own count with it: in Index.ModifyBlocks a block entry is deleted from idx.Blocks only behind a test that the entry is nil or has no counts left — not when one supervoxel's count reaches zero (the other supervoxels of the body in that block would vanish from the index)",
+		Fn:    ruleBlockEntryDeletedOnlyWhenEmpty})
+}
+
+// dimAxis: the axis (0,1,2) of the block dimension a value is derived from: a component of a Point3d, or
+// the header word at byte 4·axis.  -1 when none or several.
+func dimAxis(v ssa.Value) int {
+	axis := -1
+	for d := range dataDeps(v) {
+		k := int64(-1)
+		switch x := d.(type) {
+		case *ssa.Index:
+			if strings.Contains(x.X.Type().String(), "Point3d") {
+				if c, ok := constInt(x.Index); ok {
+					k = c
+				}
+			}
+		case *ssa.UnOp:
+			if ia, ok := x.X.(*ssa.IndexAddr); ok && strings.Contains(ia.X.Type().String(), "Point3d") {
+				if c, ok := constInt(ia.Index); ok {
+					k = c
+				}
+			}
+		case *ssa.Call:
+			if methodNameOf(x) == "Uint32" && len(x.Call.Args) > 0 {
+				if sl, ok := x.Call.Args[len(x.Call.Args)-1].(*ssa.Slice); ok {
+					lo := int64(0)
+					if sl.Low != nil {
+						if c, ok := constInt(sl.Low); ok {
+							lo = c
+						} else {
+							lo = -1
+						}
+					}
+					if lo == 0 || lo == 4 || lo == 8 {
+						k = lo / 4
+					}
+				}
+			}
+		}
+		if k < 0 || k > 2 {
+			continue
+		}
+		if axis >= 0 && axis != int(k) {
+			return -1
+		}
+		axis = int(k)
+	}
+	return axis
+}
+
+func mulFactors(v ssa.Value, out *[]ssa.Value) {
+	v = stripConv(v)
+	if bo, ok := v.(*ssa.BinOp); ok && bo.Op == token.MUL {
+		mulFactors(bo.X, out)
+		mulFactors(bo.Y, out)
+		return
+	}
+	*out = append(*out, v)
+}
+
+func ruleSubBlockNumberStrides(r *Run) {
+	w := r.W
+	n := 0
+	for _, f := range w.RepoFuncs {
+		if relPkg(pkgPathOf(f)) != "datatype/common/labels" || len(f.Blocks) == 0 || isTestFunc(w, f) {
+			continue
+		}
+		k := 0
+		seen := map[ssa.Value]bool{}
+		for _, b := range f.Blocks {
+			for _, in := range b.Instrs {
+				bo, ok := in.(*ssa.BinOp)
+				if !ok || bo.Op != token.ADD || seen[bo] {
+					continue
+				}
+				// a maximal sum: not itself an operand of another addition
+				inner := false
+				for _, ref := range *bo.Referrers() {
+					if p, ok := ref.(*ssa.BinOp); ok && p.Op == token.ADD {
+						inner = true
+					}
+				}
+				if inner {
+					continue
+				}
+				var leaves []ssa.Value
+				var flat func(v ssa.Value)
+				flat = func(v ssa.Value) {
+					if x, ok := v.(*ssa.BinOp); ok && x.Op == token.ADD {
+						seen[x] = true
+						flat(x.X)
+						flat(x.Y)
+						return
+					}
+					leaves = append(leaves, v)
+				}
+				flat(bo)
+				var plane, row []int // axes of the dimension factors of the 3-factor and 2-factor terms
+				havePlane, haveRow := false, false
+				for _, lf := range leaves {
+					var fs []ssa.Value
+					mulFactors(lf, &fs)
+					var axes []int
+					for _, fct := range fs {
+						if a := dimAxis(fct); a >= 0 {
+							// a dimension count, not a coordinate: derived from the block size by a division or read from the header
+							isDim := false
+							for d := range dataDeps(fct) {
+								if q, ok := d.(*ssa.BinOp); ok && (q.Op == token.QUO || q.Op == token.SHR) {
+									isDim = true
+								}
+								if c, ok := d.(*ssa.Call); ok && methodNameOf(c) == "Uint32" {
+									isDim = true
+								}
+							}
+							if isDim {
+								axes = append(axes, a)
+							}
+						}
+					}
+					switch len(axes) {
+					case 2:
+						plane, havePlane = axes, true
+					case 1:
+						row, haveRow = axes, true
+					}
+				}
+				if !havePlane || !haveRow {
+					continue
+				}
+				n++
+				k++
+				okPlane := (plane[0] == 0 && plane[1] == 1) || (plane[0] == 1 && plane[1] == 0)
+				r.check(okPlane && row[0] == 0, fmt.Sprintf("%s:sub-block-number#%d:x-fastest", fname(f), k), "plane stride gx·gy, row stride gx",
+					fmt.Sprintf("the sub-block number is computed with plane stride over axes %v and row stride over axis %v instead of gx·gy and gx: for blocks that are not cubes the point is looked up in the wrong sub-block", plane, row), w.pos(bo.Pos()))
+			}
+		}
+	}
+	r.check(n >= 3, "labels:sub-block-numbers", fmt.Sprintf("%d", n), "fewer than expected: rule needs review", "-")
+}
+
+func ruleBlockEntryDeletedOnlyWhenEmpty(r *Run) {
+	w := r.W
+	f := w.method("datatype/common/labels", "Index", "ModifyBlocks")
+	if f == nil {
+		r.undecided("labels.Index.ModifyBlocks", "anchor not found")
+		return
+	}
+	n := 0
+	for _, c := range calls(f) {
+		cv, ok := c.(*ssa.Call)
+		if !ok {
+			continue
+		}
+		bi, ok := cv.Call.Value.(*ssa.Builtin)
+		if !ok || bi.Name() != "delete" || !isFieldLoad(cv.Call.Args[0], "LabelIndex", "Blocks") && !isFieldLoad(cv.Call.Args[0], "Index", "Blocks") {
+			continue
+		}
+		n++
+		// every way into the deleting block is decided by a test of the entry itself: it is nil, or it has no counts
+		guarded := len(cv.Block().Preds) > 0
+		for _, b := range cv.Block().Preds {
+			ifi, isIf := b.Instrs[len(b.Instrs)-1].(*ssa.If)
+			if !isIf {
+				guarded = false
+				continue
+			}
+			about := false
+			for d := range dataDeps(ifi.Cond) {
+				if x := lenOf(d); x != nil {
+					if u, ok := x.(*ssa.UnOp); ok {
+						if fa, ok := u.X.(*ssa.FieldAddr); ok {
+							if nm, _, _ := fieldName(fa); nm == "Counts" {
+								about = true
+							}
+						}
+					}
+				}
+			}
+			if bo, ok := ifi.Cond.(*ssa.BinOp); ok && isNilConst(bo.Y) && strings.Contains(bo.X.Type().String(), "SVCount") {
+				about = true
+			}
+			if !about {
+				guarded = false
+			}
+		}
+		r.check(guarded, fmt.Sprintf("ModifyBlocks:block-entry-delete#%d:only-when-no-counts-left", n), "behind a test of the number of counts left in the entry",
+			"a whole block entry is deleted from the index without a test that no supervoxel is left in it: when one supervoxel's count in a block reaches zero, the other supervoxels of the body in that block vanish from the index as well", w.pos(cv.Pos()))
+	}
+	r.check(n >= 1, "ModifyBlocks:block-entry-deletes", fmt.Sprintf("%d", n), "none found: rule needs review", w.fpos(f))
+}
